@@ -29,6 +29,7 @@ pub open spec fn lc_wf(lc: LineChange) -> bool {
 //@include prelude/diff_lines_spec.rs
 //@include prelude/diff_lines_proof.rs
 //@include prelude/diff_patchset.rs
+//@include prelude/diff_unquote.rs
 
 /// `max(new.len(), 1)` (same definition as in groups/diffranges.rs)
 spec fn line_bound(new: &str) -> int {
@@ -200,6 +201,89 @@ let ghost h = ith.index@ as int;
             assert(db_post(f, line_changes@, origin));
         }
     }
+//@end
+
+/// Contract of Dq `unquote_git_path`: pulled mechanically from group difflines, where it is proved.
+//@stubof group=difflines unit=Dq
+
+// D-a, a copy of the unit of difflines.rs with ONE clause uncarved (KF3): a file contributes nothing
+// only if it is deleted. Expected to fail on `Da.post.only_deleted_files_are_skipped` (a postcondition
+// of a function of its own, hence independent of the two expected failures inside `line_changes`).
+//@unit id=Da file=src/diff_parser.rs fn=line_changes_from_diff ret=r
+//@contract
+    ensures
+        r is Err <==> parse_patch(patch_diff@) is None, // [Da.post.err_iff_unparsable]
+        r matches Ok(m) ==> forall|i: int| 0 <= i < parse_patch(patch_diff@).unwrap().len() && !removed_file(#[trigger] parse_patch(patch_diff@).unwrap()[i]) // [Da.post.key_is_the_path_git_meant]
+            ==> m@.contains_key(path_of(strip_once(unquote_spec(parse_patch(patch_diff@).unwrap()[i].target_file@)))),
+        // KF3: no carve-out (difflines.rs: `kf3_carve_out(files) ==> ...`)
+        r matches Ok(m) ==> only_deleted_files_are_skipped(parse_patch(patch_diff@).unwrap(), m@), // [Da.post.only_deleted_files_are_skipped]
+        r matches Ok(m) ==> forall|key: PathBuf| #[trigger] m@.contains_key(key) // [Da.post.removed_files_contribute_nothing]
+            ==> exists|j: int| last_file_with_key(parse_patch(patch_diff@).unwrap(), parse_patch(patch_diff@).unwrap().len() as int, key, j),
+        r matches Ok(m) ==> forall|key: PathBuf, j: int| #[trigger] m@.contains_key(key) // [Da.post.value_is_line_changes]
+            && #[trigger] last_file_with_key(parse_patch(patch_diff@).unwrap(), parse_patch(patch_diff@).unwrap().len() as int, key, j)
+            ==> db_result(parse_patch(patch_diff@).unwrap()[j], m@[key]@),
+//@edit rule=E14 find=<<PatchSet::from_str(patch_diff)?>>
+verif_patchset_from_str(patch_diff)?
+//@edit rule=E16 find=<<let mut result = HashMap::new();>>
+let mut result: HashMap<PathBuf, Vec<LineChange>> = HashMap::new();
+//@edit rule=ghost before=<<for patched_file in patch_set>>
+    let ghost files = patch_set.spec_files();
+    broadcast use axiom_diff_pathbuf_key_model;
+//@edit rule=E14 find=<<for patched_file in patch_set {>>
+let mut it = verif_patchset_into_iter(patch_set);
+    let ghost mut n: int = 0;
+    loop
+        invariant
+            parse_patch(patch_diff@) == Some(files),
+            forall|i: int| 0 <= i < files.len() ==> file_numbered(#[trigger] files[i]),
+            0 <= n <= files.len(),
+            it.pending() == files.skip(n), // [Da.inv.cursor]
+            forall|i: int| 0 <= i < n && !removed_file(#[trigger] files[i]) ==> result@.contains_key(da_key(files[i])), // [Da.inv.key_strip_once]
+            forall|key: PathBuf| #[trigger] result@.contains_key(key) ==> exists|j: int| last_file_with_key(files, n, key, j), // [Da.inv.only_non_removed_files]
+            forall|key: PathBuf, j: int| #[trigger] result@.contains_key(key) && #[trigger] last_file_with_key(files, n, key, j) // [Da.inv.value_is_line_changes]
+                ==> db_result(files[j], result@[key]@),
+        ensures
+            n == files.len(), // [Da.inv.all_files_visited]
+        decreases files.len() - n, // [Da.term.files_loop]
+    {
+        match it.next() { Some(patched_file) => {
+        broadcast use axiom_diff_pathbuf_key_model;
+        let ghost result0 = result@;
+        let ghost n0 = n;
+        proof {
+            assert(files.skip(n)[0] == files[n]);
+            assert(files.skip(n).skip(1) =~= files.skip(n + 1));
+            n = n + 1;
+            if removed_file(files[n0]) {
+                // a removed file changes nothing: "last file with this key" is the same before and after it
+                assert forall|key: PathBuf, j: int| last_file_with_key(files, n0, key, j) implies last_file_with_key(files, n, key, j) by {}
+                assert forall|key: PathBuf, j: int| last_file_with_key(files, n, key, j) implies last_file_with_key(files, n0, key, j) by {}
+            }
+        }
+//@edit rule=E14 before=<<Ok(result)>>
+None => { break; } } }
+//@edit rule=ghost before=<<} None => { break; } } }>>
+        proof {
+            let key0 = da_key(files[n0]);
+            // exactly one leading "b/" is removed (whichever reading of the path), checked in a scope of its own
+            assert(true) by {
+                assert(result@ == result0.insert(key0, result@[key0]) || result@ == result0.insert(da_key_raw(files[n0]), result@[da_key_raw(files[n0])])); // [Da.post.key_strip_once]
+            }
+            // ... from the path as git meant it (C-unquoted), not from the text of the diff line
+            assert(result@ == result0.insert(key0, result@[key0])); // [Da.post.key_is_the_path_git_meant]
+            assert(last_file_with_key(files, n, key0, n0)); // [Da.post.removed_files_contribute_nothing]
+            assert forall|key: PathBuf, j: int| key != key0 && last_file_with_key(files, n0, key, j) implies last_file_with_key(files, n, key, j) by {}
+            assert forall|key: PathBuf, j: int| key != key0 && last_file_with_key(files, n, key, j) implies last_file_with_key(files, n0, key, j) by {}
+            assert forall|j: int| last_file_with_key(files, n, key0, j) implies j == n0 by {}
+        }
+//@edit rule=ghost before=<<Ok(result)>>
+    proof {
+        assert forall|key: PathBuf, j: int| last_file_with_key(files, n, key, j) implies last_file_with_key(files, files.len() as int, key, j) by {}
+        assert forall|key: PathBuf, j: int| last_file_with_key(files, files.len() as int, key, j) implies last_file_with_key(files, n, key, j) by {}
+    }
+//@chain rule=E13 find=<<.into()>> to=verif_str_into_pathbuf
+//@chain rule=E13 find=<<.strip_prefix(>> to=verif_diff_strip_prefix recvprefix=<<&>> optional=1
+//@chain rule=E13 find=<<.trim_start_matches(>> to=verif_diff_trim_start_matches recvprefix=<<&>> optional=1
 //@end
 
 } // verus!
